@@ -147,9 +147,63 @@ SPEC_PROBES = ["write (*, '(\"x=\", i3)') n", "allocate (c(merge(3, 4, i == 1)))
 SPEC_OK = ["write (unit = 6, fmt = '(a)') x", "open (10, file = 'f.dat', status = 'old')", "allocate (c(10), stat = ierr)"]
 
 
+# whole-program probes: (name, source, known-finding key or None).  None = must be a fixpoint whose
+# statements are all kept (regression probes of repaired defects); a key = listed known finding
+PROGRAM_PROBES = [
+    ("enum", "subroutine s\n  enum, bind(c)\n    enumerator :: red = 1, green\n  end enum\nend subroutine s\n", None),
+    ("function-typedecl", "function f(x)\n  integer f, g\n  f = 1\nend function f\n", None),
+    ("blank-common", "subroutine s\n  common /c/ d, // e\nend subroutine s\n", None),
+    ("labelled-if", "subroutine s\n12 if (.false.) p = 1.0\n20 forall (i = 1:n) t(i) = 1\n30 where (a > 0) a = 1\nend subroutine s\n", None),
+    ("namelist-groups", "subroutine s\n  namelist /n1/ a, b /n2/ x\nend subroutine s\n", None),
+    ("where-groups", "subroutine s\n  where (arr > 0) grid = tab(j:i) + f(a(1))\nend subroutine s\n", None),
+    ("print-relational", "subroutine s\n  print '(a)', k <= 3\nend subroutine s\n", None),
+    ("implicit-charlen", "subroutine s\n  implicit character*10 (c)\nend subroutine s\n", "pred:one_implicit_charlen_not_reparsable"),
+    ("name-function_value", "subroutine s\n  integer :: function_value\nend subroutine s\n", "pred:one_typedecl_without_colons_reads_as_function"),
+    ("procedure-in-interface", "module m\n  interface gen\n    procedure a\n  end interface gen\nend module m\n", "pred:one_procedure_becomes_module_procedure"),
+]
+
+
+def _stmt_words(text):
+    return [re.sub(r"\s+", "", l).lower() for l in text.split("\n") if l.strip() and not l.lstrip().startswith("!")]
+
+
+def run_program_probes(case, res):
+    for name, src, key in PROGRAM_PROBES:
+        rp = {"case": case, "source": src, "isfree": True, "probe": name}
+        t, err = CN.parse1(src, True)
+        res["keys"].append("probe:" + name)
+        bad = None
+        if t is None:
+            bad = "not accepted: %r" % (err,)
+        else:
+            s1 = str(t)
+            b1 = CN.body1(s1, True)
+            t2, e2 = CN.parse1("\n".join(s1.split("\n")[1:]) + "\n", True)
+            if t2 is None:
+                bad = "output %r is rejected by fparser1 itself: %r" % (b1, e2)
+            elif CN.body1(str(t2), True) != b1:
+                bad = "no fixpoint: %r then %r" % (b1, CN.body1(str(t2), True))
+            elif len(b1) != len(_stmt_words(src)):
+                bad = "%d statements printed for %d: %r" % (len(b1), len(_stmt_words(src)), b1)
+            elif name == "procedure-in-interface" and not any(l.lower().startswith("procedure") for l in b1):
+                bad = "`procedure a` printed as %r" % [l for l in b1 if "procedure" in l.lower()]
+            elif name == "blank-common" and "//" not in "".join(b1).replace(" ", ""):
+                bad = "blank common lost: %r" % b1
+            elif name == "function-typedecl" and not any(re.match(r"(?i)integer\s*(::)?\s*g$", l) for l in b1):
+                bad = "declaration of g lost: %r" % b1
+        if key is None:
+            if bad:
+                res["findings"].append({"signature": "probe-regression:" + name, "what": "repaired defect is back (%s): %s" % (name, bad), "replay": rp})
+        else:
+            res["findings"].append({"signature": key if bad else "probe-now-fine:" + name,
+                                    "what": ("%s: %s" % (name, bad)) if bad else ("probe %s, listed as a known finding, now round-trips: remove the finding" % name),
+                                    "replay": rp})
+
+
 def run_probe(case):
     m = get_model()
     res = {"key": ["probe"], "counts": {}, "findings": [], "nontrivial": True, "keys": []}
+    run_program_probes(case, res)
     for line in SPEC_PROBES + SPEC_OK:
         src = "subroutine s\n  %s\nend subroutine s\n" % line
         tree, err = CN.parse1(src, True)
